@@ -393,6 +393,7 @@ class SimNet:
         self.attempts = 0
         self.write_count = 0
         self.write_faults: list[list] = []  # [[countdown, err], ...]
+        self.stall_new_links: list[float] = []  # durations: the next accepted links start stalled
         self.faults_fired: dict[str, int] = {}
         self.violations: list[dict] = []
         self.udp: list = []
@@ -466,6 +467,13 @@ class SimNet:
             protocol.connection_made(transport)
             link.made = True
             self.trace.add("conn.made", link=link.id)
+            if self.stall_new_links:
+                # flow control from the first byte: the peer's window is closed for a while
+                dur = self.stall_new_links.pop(0)
+                self.trace.add("fault.fired", k="tcp.stall", link=link.id)
+                self.fired("tcp.stall")
+                transport._set_stall(True)
+                loop.sim_after(dur, transport._set_stall, False)
 
         loop.call_soon(_made)
         loop.call_soon(_set_result, waiter2)
